@@ -185,11 +185,25 @@ def _ca_l2_define(E):
     return atoms_map(dom, val, inst=inst)
 
 
+def _ca_names(fn):
+    """roles of _count_atoms' locals, read off the text: `total` is what the function returns, `count` the first target of the
+    outer loop, `partial` the mapping whose items the inner loop visits"""
+    import ast
+    rets = [n for n in ast.walk(fn) if isinstance(n, ast.Return) and isinstance(n.value, ast.Name)]
+    loops_ = sorted([n for n in ast.walk(fn) if isinstance(n, ast.For)], key=lambda n: (n.lineno, n.col_offset))
+    outer, inner = loops_[0], loops_[1]
+    roles = {"total": rets[-1].value.id, "count": outer.target.elts[0].id}
+    it = inner.iter
+    if isinstance(it, ast.Call) and isinstance(it.func, ast.Attribute) and isinstance(it.func.value, ast.Name):
+        roles["partial"] = it.func.value.id
+    return roles
+
+
 U_COUNT_ATOMS = Unit(
     "_count_atoms", FORMULAS + "._count_atoms", _ca_inputs, _ca_post,
     contracts={FORMULAS + "._count_atoms": c_count_atoms},
-    loops={(FORMULAS + "._count_atoms", 1): {"define": {"total": _ca_l1_define}, "invariant": _ca_l1_inv},
-           (FORMULAS + "._count_atoms", 2): {"define": {"total": _ca_l2_define}, "mutates": ["total"]}},
+    loops={(FORMULAS + "._count_atoms", 1): {"define": {"total": _ca_l1_define}, "invariant": _ca_l1_inv, "names": _ca_names},
+           (FORMULAS + "._count_atoms", 2): {"define": {"total": _ca_l2_define}, "mutates": ["total"], "names": _ca_names}},
     replay={"module": "c02", "task": "replay"},
     doc="atoms(seq)[a] == sum over entries of count * (1 if fragment is a else atoms(fragment)[a])")
 
@@ -241,7 +255,7 @@ def _mass_loop_define(E):
 
 
 U_MASS = Unit("Formula.mass", F + "mass", _self_inputs(), _mass_post, contracts=CALLEE,
-              loops={(F + "mass", 1): {"define": {"mass": _mass_loop_define}}},
+              loops={(F + "mass", 1): {"iter": "self.atoms.items()", "define": {"mass": _mass_loop_define}}},
               replay={"module": "c02", "task": "replay"})
 
 
@@ -641,7 +655,7 @@ def _nmr_inputs2(st, interp):
 
 U_NAT_RATIO = Unit("Formula.natural_mass_ratio", F + "natural_mass_ratio", _nmr_inputs2, _nmr_post,
                    contracts=dict(CALLEE, **{"IonSetOf.__getitem__": c_ion_of_valid}),
-                   inline={CORE + ".ision", CORE + ".isisotope"}, loops={(F + "natural_mass_ratio", 1): {"define": _nmr_defs()}},
+                   inline={CORE + ".ision", CORE + ".isisotope"}, loops={(F + "natural_mass_ratio", 1): {"iter": "self.atoms.items()", "define": _nmr_defs()}},
                    replay={"module": "c12", "task": "replay"})
 
 
@@ -892,7 +906,7 @@ def _vol_inv(E):
 _VOL_MODES = ["default", "pf-number-positional", "pf-number-keyword", "pf-name:cubic", "pf-name:bcc", "pf-name:hcp",
               "pf-name:fcc", "pf-name:diamond", "pf-name:BCC", "pf-name:Diamond"]
 U_VOLUME = [Unit("Formula.volume[%s]" % m, F + "volume", _vol_inputs(m), _vol_post, contracts=CALLEE,
-                 loops={(F + "volume", 1): {"define": {"V": _vol_loop}}},
+                 loops={(F + "volume", 1): {"iter": "self.atoms.items()", "define": {"V": _vol_loop}}},
                  replay={"module": "c12", "task": "replay"}) for m in _VOL_MODES]
 
 
